@@ -30,6 +30,17 @@ void failfn(const char *what, const char *detail) {
   tail += "]";
   vsched::Stats st = vsched::stats();
   j.raw("last_events_kind_id_thread_b", tail).num("steps", (long long)st.steps).str("sig", std::to_string(st.signature)).num("nevents", (long long)ev.size());
+  // the ownership monitor also judges the part of the run that did happen (a run that never terminates may have
+  // mis-assigned chunks before it got stuck)
+  mon::Report R = mon::run(ev);
+  std::string mv = "[";
+  for (size_t i = 0; i < R.findings.size(); i++) {
+    vh::J v;
+    v.str("rule", R.findings[i].rule).str("detail", R.findings[i].detail);
+    mv += (i ? "," : "") + v.done();
+  }
+  mv += "]";
+  j.raw("monitor_findings", mv);
   put(j.done());
 }
 
@@ -94,6 +105,7 @@ Case make_case(uint64_t seed, long long idx, const std::string &grid, bool thoro
   } else {
     c.T = Ts[r.below(5)];
     size_t chunks = r.below(7);
+    if (r.chance(6)) { c.T = 13 + (int)r.below(4); chunks = (size_t)c.T - 2 + r.below(5); } // every worker of a large T gets a chunk
     switch ((int)r.below(4)) {
     case 0: c.n = chunks * ch; break;                                  // exact multiple
     case 1: c.n = chunks * ch + (ch > 16 ? 16 * r.below(ch / 16) : 0); break; // block aligned
